@@ -273,11 +273,9 @@ func SplitAtIndex[T ~string](str T, index int) []T {
 		return []T{str, ""}
 	}
 
-	for idx := range str {
-		if idx == index {
-			result = append(result, append(result, str[:idx+1], str[idx+1:])...)
-		}
-	}
+	// index is a byte offset: ranging over the string would skip the
+	// offsets that fall inside a multi-byte rune and return no parts at all.
+	result = append(result, str[:index+1], str[index+1:])
 
 	return result
 }
